@@ -445,6 +445,24 @@ def C_all(P, board):
     return None
 
 
+@rule("C01.R6", "premise: the cached checkers / pinned sets the generator reads are computed exactly (C03.R3, C03.R5, C03.R6 re-run)")
+def r6(ctx):
+    import importlib
+    from analysis.runner import Ctx, run_rule, _RULES
+    importlib.import_module("rules.C03")
+    c = Ctx("C03", ctx.tier, shadow=True)
+    c.P = ctx.P
+    ran = 0
+    for fn in _RULES.get("C03", []):
+        if fn.rule_id in ("C03.R3", "C03.R5", "C03.R6"):
+            run_rule(c, fn)
+            ran += 1
+    ctx.floor("premise rules run", ran, 3)
+    ctx.bulk("premise obligations (pin/check cache)", c.obligations, [])
+    for v in c.violations:
+        ctx.ob(f"premise {v.rule}:{v.key}"[:120], False, "move generation filters by `checkers` and `pinned`; their computation is no longer exact: " + v.what[:300], site=getattr(v, "site", None))
+
+
 @rule("C01.R5", "en passant: legality decided on the position after the capture")
 def r5(ctx):
     P = ctx.P
